@@ -138,7 +138,7 @@ def match_known(v, findings):
 # replay files
 
 def write_replay(pid, seed, scenario, viol, dig, minimised):
-    d = os.path.join(VERIF_DIR, "replays")
+    d = os.environ.get("VERIF_REPLAY_DIR") or os.path.join(VERIF_DIR, "replays")  # env override: tooling only
     os.makedirs(d, exist_ok=True)
     path = os.path.join(d, f"{pid}-{seed}.json")
     with open(path, "w") as f:
